@@ -233,6 +233,48 @@ def check_noninstruction(ctx, kind, segs, feature):
             run.inconc(f"{kind}: REJECT unknown for {s.method}")
 
 
+def data16_probe(ctx):
+    """The `data16 ` pre-processing of LineParser.parse is a string rewrite, outside the regular-language encoding.
+    It is exercised on SOLVER-GENERATED members of every data16 line class of the grammar (bug hunting, not a proof):
+    the real parse_line must yield the line's address and its first token that is not the data16 prefix
+    (the token `data16` itself when nothing follows it, as objdump prints for a dangling 0x66 prefix)."""
+    run = ctx.run
+    W = G.WORD
+    classes = {
+        "alone": G.HEAD + [(2, "data16")],
+        "before_instruction": G.HEAD + [(0, "data16 "), (2, W), (0, G.SP), (3, G.OPS), (0, G.TAIL)],
+        "before_single_token": G.HEAD + [(0, "data16 "), (2, W)],
+        "twice": G.HEAD + [(0, "data16 data16 "), (2, W), (0, G.SP), (3, G.OPS)],
+        "with_other_prefix": G.HEAD + [(0, "data16 "), (2, "(?:cs|ds|es|lock|rep|addr32)"), (0, " "), (3, W), (0, G.TAIL)],
+    }
+    n_each = 4 if tier() == "quick" else 12
+    for cname, segs in classes.items():
+        lang = ctx.ll.seg(segs)
+        seen = []
+        for _ in range(n_each):
+            extra = None
+            if seen:
+                import z3 as _z3
+
+                prev = list(seen)
+                extra = lambda sv, prev=prev: _z3.And(*[sv != _z3.StringVal(p) for p in prev])
+            v, w = ctx.q.check(lang, extra)
+            run.count(f"D16GEN:{v}")
+            if v != "sat":
+                break
+            seen.append(w)
+            line = ctx.w.decode(w)[0]
+            exp = intended(line, segs)
+            got = real_parse(line)
+            run.count("traces_validated_against_impl")
+            ok = got[0] == "INS" and exp is not None and got[1] == exp[0] and same_mnemonic(got[2], exp[1])
+            if not ok:
+                run.count("disagreements_replayed")
+                run.failure(f"data16/{cname}", f"data16 line {line!r}: expected addr={exp[0] if exp else None!r} mnemonic={exp[1] if exp else None!r}, real parse -> {got}", {"kind": "lx", "line": line, "segs": segs, "lemma": "DATA16"})
+                break
+    run.coverage_extra["data16_statement"] = list(ctx.data16) if ctx.data16 else None
+
+
 def validate_grammar(run, t, sd):
     nbytes = 20000 if t == "quick" else 400000
     cre = G.classify_regexes()
@@ -306,6 +348,7 @@ def main_for(prop):
         check_instruction_class(ctx, prop, "instruction_single_token", G.G_NOOPS, "ins_noops", ("COLOUR",))
         for kind, segs in G.NONINSTR.items():
             check_noninstruction(ctx, kind, segs, f"non_{kind}")
+        data16_probe(ctx)
         c08_extra(ctx)
     elif prop == "C10":
         check_instruction_class(ctx, prop, "instruction_with_second_token", G.G_OPS, "ins_ops", ("COLOUR", "SEPFREE"))
@@ -320,6 +363,7 @@ def main_for(prop):
         check_instruction_class(ctx, prop, "instruction_single_token_no_byte_column", G.G_NOOPS_NOBYTES, "nobytes_noops", ("COLOUR",))
         for kind, segs in G.NONINSTR.items():
             check_noninstruction(ctx, kind, segs, f"non_{kind}")
+        data16_probe(ctx)
         c16_extra(ctx)
     run.solver_s = ctx.q.wall
     states = run.counts.get("queries", 0)
